@@ -6,9 +6,13 @@ import (
 	"fmt"
 	"io"
 	"net"
+	"os"
+	"runtime"
 	"sort"
+	"strconv"
 	"strings"
 	"sync"
+	"time"
 
 	remoteexecution "github.com/bazelbuild/remote-apis/build/bazel/remote/execution/v2"
 	"github.com/buildbarn/bb-storage/pkg/blobstore"
@@ -46,14 +50,20 @@ type wireEnv struct {
 	stopped    bool
 }
 
-func newWireEnv(r *gen.Rng) *wireEnv {
+// newWireEnv starts the servers. tinyChunks permits a server-side read chunk
+// size of 1 or 16 bytes (one gRPC message per chunk: only for small objects).
+func newWireEnv(r *gen.Rng, tinyChunks bool) *wireEnv {
 	e := &wireEnv{be: newBackend("backend"), ac: newBackend("ac-backend"), srvPool: newPool(r)}
 	e.ac.Store.Unvalidated = true
 	e.maxBatch = int64(r.Pick(64, 500, 2000, 10000, 1<<20))
 	e.serverZstd = r.Chance(2, 3)
 	e.lis = bufconn.Listen(256 << 10)
 	e.server = grpc.NewServer(grpc.WaitForHandlers(true))
-	bytestream.RegisterByteStreamServer(e.server, grpcservers.NewByteStreamServer(e.be, r.Pick(1, 16, 1000, 65536, 65536), e.srvPool))
+	readChunk := r.Pick(1, 16, 1000, 65536, 65536)
+	if !tinyChunks && readChunk < 1000 {
+		readChunk = 4096
+	}
+	bytestream.RegisterByteStreamServer(e.server, grpcservers.NewByteStreamServer(e.be, readChunk, e.srvPool))
 	remoteexecution.RegisterContentAddressableStorageServer(e.server, grpcservers.NewContentAddressableStorageServer(e.be, e.maxBatch))
 	remoteexecution.RegisterActionCacheServer(e.server, grpcservers.NewActionCacheServer(e.ac, 1<<20))
 	caps := &remoteexecution.CacheCapabilities{DigestFunctions: digest.SupportedDigestFunctions}
@@ -100,7 +110,7 @@ func caseWriteWire(c *run.Case, w *run.Worker) {
 	v := evaluate(s)
 	c.Desc("write-wire %s", s.describe())
 	c.Logf("reference verdict: %s %v %s", v.kind, v.defects, v.why)
-	env := newWireEnv(r)
+	env := newWireEnv(r, true)
 	defer env.drain()
 	if r.Chance(1, 5) {
 		env.be.Store.Set(obj.d, obj.data)
@@ -142,6 +152,29 @@ func caseWriteWire(c *run.Case, w *run.Worker) {
 // ---------------------------------------------------------------------------
 // Client <-> server back to back, compared with the backend used directly.
 
+// stackDumpAfter is a debugging aid: with C14_STACKDUMP_S=<seconds> set, a case
+// that runs longer writes all goroutine stacks to the worker log (VERIF_KEEP=1).
+func stackDumpAfter() func() {
+	secs, _ := strconv.Atoi(os.Getenv("C14_STACKDUMP_S"))
+	if secs <= 0 {
+		return func() {}
+	}
+	done := make(chan struct{})
+	go func() {
+		for i := 0; i < 2; i++ {
+			select {
+			case <-done:
+				return
+			case <-time.After(time.Duration(secs) * time.Second):
+				buf := make([]byte, 1<<22)
+				fmt.Fprintf(os.Stderr, "\n===== stack dump %d =====\n", i)
+				os.Stderr.Write(buf[:runtime.Stack(buf, true)])
+			}
+		}
+	}()
+	return func() { close(done) }
+}
+
 const lastChunkSig = "casBlobAccess.Get(zstd):last-chunk-dropped-when-decoder-returns-data-with-EOF"
 
 type b2bSide struct {
@@ -182,7 +215,16 @@ func (a opResult) String() string {
 
 func caseBackToBack(c *run.Case, w *run.Worker) {
 	r := c.Rng
-	env := newWireEnv(r)
+	defer stackDumpAfter()()
+	nObj := r.Range(2, 5)
+	var objs []object
+	largest := 0
+	for i := 0; i < nObj; i++ {
+		o := genObject(r, uint64(c.Index)+1, uint64(w.Index)*100+uint64(i)+300, 70000)
+		objs = append(objs, o)
+		largest = max(largest, len(o.data))
+	}
+	env := newWireEnv(r, largest <= 3000)
 	defer env.drain()
 	twin := newBackend("twin")
 	var clientPool *countingPool
@@ -193,24 +235,23 @@ func caseBackToBack(c *run.Case, w *run.Worker) {
 	}
 	uuids := r.Fork()
 	var uuidMu sync.Mutex
+	clientChunk := r.Pick(1, 100, 4096, 65536, 65536)
+	if largest > 3000 && clientChunk < 4096 {
+		clientChunk = 4096 // one gRPC message per chunk
+	}
 	client := grpcclients.NewCASBlobAccess(env.conn, func() (uuid.UUID, error) {
 		uuidMu.Lock()
 		defer uuidMu.Unlock()
 		return rngUUID(uuids), nil
-	}, r.Pick(1, 100, 4096, 65536, 65536), cp)
+	}, clientChunk, cp)
 	zstdOn := env.serverZstd && clientPool != nil
 	mode := "identity"
 	if zstdOn {
 		mode = "zstd"
 	}
-	c.Desc("back-to-back CAS: server-zstd=%v client-pool=%v", env.serverZstd, clientPool != nil)
+	c.Desc("back-to-back CAS: server-zstd=%v client-pool=%v client-chunk=%d largest-object=%d", env.serverZstd, clientPool != nil, clientChunk, largest)
 	w.Count("b2b_cases_"+mode, 1)
 	ctx := context.Background()
-	nObj := r.Range(2, 5)
-	var objs []object
-	for i := 0; i < nObj; i++ {
-		objs = append(objs, genObject(r, uint64(c.Index)+1, uint64(w.Index)*100+uint64(i)+300, 70000))
-	}
 	sides := []b2bSide{{"backend-direct", twin, twin}, {"client-server", client, env.be}}
 	compareStores := func(when string) {
 		a, b := twin.Store.Keys(), env.be.Store.Keys()
@@ -336,7 +377,7 @@ func caseBackToBack(c *run.Case, w *run.Worker) {
 						causes++
 					}
 					cs := rr.Pick(1, 10, 1000, 65536)
-					if size > 20000 && cs < 1000 {
+					if size > 3000 && cs < 1000 {
 						cs = 1000
 					}
 					opDesc = fmt.Sprintf("Get(%v).ToChunkReader(%d,%d) present=%v backendErr=%v", o, off, cs, present, injected)
@@ -459,7 +500,7 @@ func caseBackToBack(c *run.Case, w *run.Worker) {
 
 func caseActionCache(c *run.Case, w *run.Worker) {
 	r := c.Rng
-	env := newWireEnv(r)
+	env := newWireEnv(r, true)
 	defer env.drain()
 	twin := newBackend("ac-twin")
 	twin.Store.Unvalidated = true
@@ -558,7 +599,7 @@ func caseActionCache(c *run.Case, w *run.Worker) {
 
 func caseConcurrent(c *run.Case, w *run.Worker) {
 	r := c.Rng
-	env := newWireEnv(r)
+	env := newWireEnv(r, false)
 	defer env.drain()
 	clientPool := newPool(r)
 	uuids := r.Fork()
@@ -567,7 +608,7 @@ func caseConcurrent(c *run.Case, w *run.Worker) {
 		uuidMu.Lock()
 		defer uuidMu.Unlock()
 		return rngUUID(uuids), nil
-	}, r.Pick(100, 4096, 65536), clientPool)
+	}, r.Pick(4096, 65536), clientPool)
 	c.Desc("concurrent clients: server-zstd=%v pools %s/%s", env.serverZstd, clientPool.name, env.srvPool.name)
 	ctx := context.Background()
 	workers := r.Range(3, 6)
